@@ -51,6 +51,8 @@ def run(pid):
             if o["e"] == "reset":
                 cur = o["t"]
             elif o["e"] == "result":
+                if o.get("skipped"):
+                    raise vlib.CheckError("c10 driver could not set up state %s of %s: %s" % (o["st"], o["ep"], o["skipped"]))
                 results.append(o)
             elif o["e"] == "crash":
                 c = todo[cur]
